@@ -304,14 +304,15 @@ var c05PathsCases func(tier string, emit func(string, interface{}))
 var c05RunPaths func(c core.Case) core.Outcome
 
 func (c05) Cases(tier string, emit func(string, interface{})) {
-	for _, gc := range c05Graphs(tier) {
-		emit("graph", gc)
-	}
+	// the two small families first: under the thorough tier's dispatch deadline the 4-file graphs are what is cut
 	if c05RemoteCases != nil {
 		c05RemoteCases(tier, emit)
 	}
 	if c05PathsCases != nil {
 		c05PathsCases(tier, emit)
+	}
+	for _, gc := range c05Graphs(tier) {
+		emit("graph", gc)
 	}
 }
 
